@@ -337,6 +337,9 @@ pub mod udp;
 
 pub mod https;
 
+#[cfg(feature = "verif-hooks")]
+pub mod verif;
+
 use std::{
     cell::RefCell,
     collections::{BTreeMap, HashMap},
